@@ -343,7 +343,7 @@ const MODULE_KINDS: [(&str, &str); 20] = [
 pub fn gen_module(g: &Grammar, rng: &mut Rng, prefix: &str, per_kind: usize, opt_prob: u32, with_singletons: bool) -> GenModule {
     let mut children = vec![];
     let mut gen_one = |tag: &str, ty: &str, rng: &mut Rng| -> Vec<GTok> {
-        let mut dg = DocGen::new(g, rng, GenOpts { opt_prob, max_repeat: 2, comments: false, unicode: false, ..GenOpts::default() });
+        let mut dg = DocGen::new(g, rng, GenOpts { opt_prob, max_repeat: 2, comments: false, unicode: false, deprecated: true, ..GenOpts::default() });
         dg.ascending_positions = true;
         dg.gen_element(tag, ty, true, 2);
         dg.out
